@@ -217,3 +217,23 @@ V('C01', 'reader-asserts-version', CORE, '        nVersion = struct.unpack(b"<i"
 V('C01', 'sequence-read-as-64bit-with-range-check', CORE, 'nSequence = struct.unpack(b"<I", ser_read(f,4))[0]', 'nSequence = struct.unpack(b"<i", ser_read(f,4))[0]', ['C01.E2', 'C01.L'], scope='CTxIn.stream_deserialize')
 V('C01', 'block-reader-checks-merkle', CORE, "        vtx = VectorSerializer.stream_deserialize(CTransaction, f)\n        vMerkleTree = tuple(CBlock.build_merkle_tree_from_txs(vtx))", "        vtx = VectorSerializer.stream_deserialize(CTransaction, f)\n        vMerkleTree = tuple(CBlock.build_merkle_tree_from_txs(vtx))\n        if vtx and vMerkleTree[-1] != self.hashMerkleRoot:\n            raise CheckBlockError('bad merkle root')", 'C01.E2', scope='CBlock.stream_deserialize')
 V('C01', 'ser_read-raises-valueerror-on-oversize', SER, "raise SerializationError('Asked to read 0x%x bytes; MAX_SIZE exceeded' % n)", "raise ValueError('Asked to read 0x%x bytes; MAX_SIZE exceeded' % n)", ['C01.E2', 'C01.E1'], scope='ser_read')
+
+# ------------------------------------------------------------------------------------------------ C07
+V('C07', 'evalscript-without-conversion', EVAL, "    try:\n        _EvalScript(stack, scriptIn, txTo, inIdx, flags=flags)\n    except CScriptInvalidError as err:\n        raise EvalScriptError(repr(err),\n                              stack=stack,\n                              scriptIn=scriptIn,\n                              txTo=txTo,\n                              inIdx=inIdx,\n                              flags=flags)", "    _EvalScript(stack, scriptIn, txTo, inIdx, flags=flags)", ['C07.X1', 'C07.X2'], scope='EvalScript')
+V('C07', 'cast-raises-valueerror', EVAL, "raise err_raiser(EvalScriptError, 'CastToBigNum() : overflow')", "raise ValueError('CastToBigNum() : overflow')", 'C07.X1', scope='_CastToBigNum')
+V('C07', 'size-opcode-unnamed', SCRIPT, "    OP_SIZE: 'OP_SIZE',\n", "", ['C07.N1'])
+V('C07', 'swap-guard-too-weak', EVAL, "            elif sop == OP_SWAP:\n                check_args(2)", "            elif sop == OP_SWAP:\n                check_args(1)", 'C07.G1', scope='_EvalScript')
+V('C07', 'revert-F4-assert', EVAL, "        if SCRIPT_VERIFY_P2SH not in flags:\n            raise VerifyScriptError(\"SCRIPT_VERIFY_CLEANSTACK requires SCRIPT_VERIFY_P2SH\")", "        assert SCRIPT_VERIFY_P2SH in flags", 'C07.X1', scope='VerifyScript')
+V('C07', 'sighash-on-callers-tx', SCRIPT, 'txtmp = bitcoin.core.CMutableTransaction.from_tx(txTo)', 'txtmp = txTo', 'C07.RO', scope='RawSignatureHash')
+V('C07', 'only-truncation-converted', EVAL, 'except CScriptInvalidError as err:', 'except CScriptTruncatedPushDataError as err:', ['C07.X1', 'C07.X2'], scope='EvalScript')
+V('C07', 'mutable-txin-identity-shortcut', CORE, "        \"\"\"Create a fully mutable copy of an existing TxIn\"\"\"\n", "        \"\"\"Create a fully mutable copy of an existing TxIn\"\"\"\n        if txin.__class__ is CMutableTxIn:\n            return txin\n", 'C07.RO', scope='CMutableTxIn.from_txin')
+V('C07', 'multisig-bound-unchecked', EVAL, "    if len(stack) < i:\n        err_raiser(ArgumentsInvalidError, opcode, \"not enough keys on stack\")\n", "", 'C07.G2', scope='_CheckMultiSig')
+V('C07', 'altstack-pop-unguarded', EVAL, "                if len(altstack) < 1:\n                    err_raiser(MissingOpArgumentsError, sop, altstack, 1)\n", "", 'C07.G1', scope='_EvalScript')
+V('C07', 'endif-unguarded', EVAL, "                if len(vfExec) == 0:\n                    err_raiser(EvalScriptError, 'ENDIF found without prior IF')\n", "", 'C07.G1', scope='_EvalScript')
+V('C07', 'pick-bound-off-by-one', EVAL, 'if n < 0 or n >= len(stack):', 'if n < 0 or n > len(stack):', 'C07.G1', scope='_EvalScript')
+V('C07', 'unop-guard-dropped', EVAL, "    if len(stack) < 1:\n        err_raiser(MissingOpArgumentsError, opcode, stack, 1)\n    bn = _CastToBigNum(stack[-1], err_raiser)", "    bn = _CastToBigNum(stack[-1], err_raiser)", 'C07.G1', scope='_UnaryOp')
+V('C07', 'verifyscript-top-unguarded', EVAL, "    if len(stack) == 0:\n        raise VerifyScriptError(\"scriptPubKey left an empty stack\")\n", "", ['C07.G1', 'C06.V1'], scope='VerifyScript')
+V('C07', 'raw-iter-loop-without-step', SCRIPT, "            sop_idx = i\n            opcode = self[i]\n            i += 1\n", "            sop_idx = i\n            opcode = self[i]\n", 'C07.T1', scope='CScript.raw_iter')
+V('C07', 'getsigop-not-converted-in-verify', EVAL, '    if inIdx < 0:\n        raise VerifySignatureError("inIdx negative")\n', '', 'C07.I1', scope='VerifySignature')
+V('C07', 'push-non-bytes', EVAL, "                bn = len(stack)\n                stack.append(bitcoin.core._bignum.bn2vch(bn))", "                bn = len(stack)\n                stack.append(bn)", 'C07.K1', scope='_EvalScript')
+V('C07', 'reserved-raise-site-keyerror', EVAL, "                err_raiser(EvalScriptError, 'unsupported opcode 0x%x' % sop)", "                err_raiser(EvalScriptError, 'unsupported opcode %s' % OPCODE_NAMES[sop])", 'C07.N1', scope='_EvalScript')
